@@ -93,11 +93,23 @@ def ob_lifecycle(w, P):
         c.set(2, v)
         cl.append(('C18', 'parent and child both keep working', EqR(zv(c2.get(2)), zv(v))))
     elif kind == 'fanout':
-        fc = L.fanout.FanoutCache(w.dir, shards=2, timeout=3)
+        total = w.int('size_limit', 2 ** 30, 2 ** 50)
+        cull = w.int('cull_limit', 0, 50)
+        fc = L.fanout.FanoutCache(w.dir, shards=2, timeout=3, size_limit=total, cull_limit=cull)
         fc.set(1, v)
-        st = fc.__getstate__()
-        f2 = L.fanout.FanoutCache.__new__(L.fanout.FanoutCache)
-        f2.__setstate__(st)
+        per_shard = [sh.size_limit for sh in fc._shards]
+        import pickle as _pickle
+        if isinstance(total, I):
+            st = fc.__getstate__()
+            f2 = L.fanout.FanoutCache.__new__(L.fanout.FanoutCache)
+            f2.__setstate__(st)
+        else:
+            f2 = _pickle.loads(_pickle.dumps(fc))
+        half = zv(total) / 2
+        cl.append(('C13', 'the total size limit is divided among the shards', AndL(EqR(zv(p), sx.ToInt(half) if hasattr(sx, 'ToInt') else half) for p in per_shard)))
+        cl.append(('C18,C13', "a pickle round trip changes no shard's settings: the copy, the original and a newly opened handle all report the per-shard limits the cache was created with",
+                   AndL(And(EqR(zv(a.size_limit), zv(p)), EqR(zv(a.cull_limit), zv(cull))) for h in (f2, fc, L.fanout.FanoutCache(w.dir, shards=2)) for a, p in zip(h._shards, per_shard))))
+        cl.append(('C18,C13', 'and the stored settings are unchanged', AndL(EqR(zv(core.Cache(sh._directory).reset('size_limit')), zv(p)) for sh, p in zip(fc._shards, per_shard))))
         cl.append(('C18', 'an unpickled FanoutCache has the same directory, shard count, timeout and Disk class',
                    f2.directory == fc.directory and f2._count == 2 and f2.timeout == 3 and f2._disk is fc._disk))
         cl.append(('C18', 'and sees the same items', EqR(zv(f2.get(1)), zv(v))))
@@ -127,6 +139,151 @@ def ob_lifecycle(w, P):
     return cl
 
 
+def ob_init_kill(w, P):
+    """C07 at the very beginning of a directory's life: the process that opens a brand-new directory for the first time
+    (real Cache.__init__: tables, indexes, triggers, settings, counters) and stores one item is killed at a symbolic
+    event; every later process can open the directory and read, write and count in it, and check() finds nothing"""
+    import os
+    L = w.L
+    core = L.core
+    w.clock_fn = lambda: 1000.0
+    cl = []
+    kind = P.get('kind', 'cache')
+
+    def first_life():
+        if kind == 'cache':
+            c = core.Cache(w.dir)
+            c.set(1, 2)
+        elif kind == 'fanout':
+            f = L.fanout.FanoutCache(w.dir, shards=2)
+            f.set(1, 2)
+        elif kind == 'index':
+            L.persistent.Index(w.dir, {1: 2})
+        elif kind == 'deque':
+            L.persistent.Deque([2], directory=w.dir)
+    w.crash_at = w.int('crash_at', 0, P.get('max_events', 140))
+    w.start_events()
+    crashed = False
+    try:
+        if w.is_real:
+            pid = os.fork()
+            if pid == 0:
+                try:
+                    w.in_child = True
+                    try:
+                        first_life()
+                    except BaseException:
+                        pass
+                finally:
+                    os._exit(0)
+            _, status = os.waitpid(pid, 0)
+            crashed = os.WIFSIGNALED(status)
+        else:
+            first_life()
+    except env.Crash:
+        crashed = True
+    w.recover()
+    w.stop_events()
+    if crashed:
+        flag('crashed')
+    w.pid += 1
+    try:
+        if kind == 'fanout':
+            c2 = L.fanout.FanoutCache(w.dir, shards=2)
+        else:
+            c2 = core.Cache(w.dir)
+        ok_rw = And(c2.set(3, 4) is True, EqR(zv(c2.get(3)), 4) if is_num_like(c2.get(3)) else False)
+        n = len(c2)
+        keys = list(c2)
+        cl.append(('C07,C18', 'after a kill during the first open every later process can open the directory and read and write', ok_rw))
+        cl.append(('C07,C03', 'and its count matches what iteration finds', EqR(zv(n), len(keys))))
+        one = c2.get(1, default=None) if kind in ('cache', 'fanout') else None
+        cl.append(('C07', 'the item of the killed process is there in full or not at all', True if one is None else (EqR(zv(one), 2) if is_num_like(one) else False)))
+        if P.get('check', True) and kind != 'fanout':
+            cl.append(('C07,C17', 'and check() finds nothing wrong', len(c2.check()) == 0))
+    except Exception as e:
+        import traceback
+        cl.append(('C07,C18', 'after a kill during the first open a later process can open and use the directory (%s: %s)' % (type(e).__name__, e), False))
+    flag('nontrivial')
+    return cl
+
+def ob_init_race(w, P):
+    """two processes open a brand-new directory at the same time: client A's first Cache(directory) is interrupted at a
+    symbolic event by client B's complete Cache(directory) + set; both handles work afterwards, both see both items
+    and the settings / counters are complete"""
+    L = w.L
+    core = L.core
+    w.clock_fn = lambda: 1000.0
+    cl = []
+    res = {}
+
+    def intruder():
+        w.tid, old = 2, w.tid
+        try:
+            b = core.Cache(w.dir)
+            res['b'] = b
+            res['set'] = b.set(3, 4)
+        finally:
+            w.tid = old
+    w.interfere_at = w.int('at', 0, P.get('max_events', 140))
+    w.interfere_hook = intruder
+    w.start_events()
+    a = core.Cache(w.dir)
+    w.stop_events()
+    if 'b' not in res:
+        flag('nontrivial')
+        return [('C18', 'uninterrupted', True)]
+    flag('interleaved')
+    b = res['b']
+    cl.append(('C18,C05', "the second client's write during the first client's initialisation succeeded", res['set'] is True))
+    ra = a.set(1, 2)
+    cl.append(('C18,C05', 'the first client works after its interrupted initialisation', ra is True))
+    for h, nm in ((a, 'first'), (b, 'second')):
+        cl.append(('C18,C05', 'the %s client sees both items and the right count' % nm,
+                   And(EqR(zv(h.get(1, default=-1)), 2), EqR(zv(h.get(3, default=-1)), 4), EqR(zv(len(h)), 2))))
+    c3 = core.Cache(w.dir)
+    cl.append(('C18', 'a later handle sees the same', And(EqR(zv(len(c3)), 2), c3.eviction_policy == a.eviction_policy, EqR(zv(c3.size_limit), zv(a.size_limit)))))
+    cl.append(('C18,C17', 'check() finds nothing wrong', len(c3.check()) == 0))
+    flag('nontrivial')
+    return cl
+
+def ob_settings_handles(w, P):
+    """a setting is changed through one handle, then through another whose cached attribute is stale: the last reset wins
+    for every handle (after reload), for new handles and in the stored settings -- also when the value written equals
+    the writer's own cached value; same for create_tag_index / drop_tag_index"""
+    L = w.L
+    core = L.core
+    w.clock_fn = lambda: 1000.0
+    cl = []
+    v = w.int('v', 0, 1000)
+    wv = w.int('w', 0, 1000)
+    v2 = w.int('v2', 0, 1000)
+    key = ['cull_limit', 'size_limit', 'statistics'][int(w.int('key_i', 0, 2))] if not P.get('fanout') else 'cull_limit'
+    if P.get('fanout'):
+        mk = lambda **kw: L.fanout.FanoutCache(w.dir, shards=2, **kw)
+    else:
+        mk = lambda **kw: core.Cache(w.dir, **kw)
+    a = mk(**{key: v})
+    b = mk()
+    rb = b.reset(key, wv)
+    ra = a.reset(key, v2)  # a's cached attribute is still v
+
+    def same(p, q):
+        return EqR(zv(p), zv(q)) if is_num_like(p) and is_num_like(q) else p == q
+    cl.append(('C18', 'reset returns the value written', And(same(rb, wv), same(ra, v2))))
+    cl.append(('C18', 'the last reset wins: the other handle sees it after reload', same(b.reset(key), v2)))
+    cl.append(('C18', 'a new handle sees it', same(getattr(mk(), key), v2)))
+    cl.append(('C18', 'the writer reports it', same(getattr(a, key), v2)))
+    if not P.get('fanout'):
+        b.create_tag_index()
+        a.drop_tag_index()  # a's cached tag_index is still 0
+        c3 = mk()
+        cl.append(('C18', 'drop_tag_index through a handle with a stale attribute is stored: a new handle reports tag_index 0', same(c3.tag_index, 0)))
+        a.create_tag_index()
+        cl.append(('C18', 'and create_tag_index likewise', same(mk().tag_index, 1)))
+    flag('nontrivial')
+    return cl
+
 def jobs(tier):
     out = []
     F = ['core.Cache.__init__', 'core.Cache._con', 'core.Cache.reset', 'core.Cache.close', 'core.Cache.__getstate__', 'core.Cache.__setstate__']
@@ -134,7 +291,14 @@ def jobs(tier):
         out.append(dict(id='persist.settings.%s' % d, func='ob_settings', params=dict(disk=d), tags=['C18'], functions=F, weight=10, twin=False,
                         must_reach=['disk_subclass'] if d == 'sub' else []))
     for k in ('cache', 'fanout', 'deque', 'index'):
-        out.append(dict(id='persist.lifecycle.%s' % k, func='ob_lifecycle', params=dict(kind=k), tags=['C18', 'C11', 'C12'],
+        out.append(dict(id='persist.lifecycle.%s' % k, func='ob_lifecycle', params=dict(kind=k), tags=['C18', 'C11', 'C12'] + (['C13'] if k == 'fanout' else []),
                         functions=F + ['fanout.FanoutCache.__getstate__', 'fanout.FanoutCache.__setstate__', 'persistent.Deque.__getstate__', 'persistent.Deque.__setstate__',
                                        'persistent.Index.__getstate__', 'persistent.Index.__setstate__'], weight=5, twin=False))
+    for fan in (False, True):
+        out.append(dict(id='persist.settings.handles%s' % ('.fanout' if fan else ''), func='ob_settings_handles', params=dict(fanout=fan), tags=['C18'], functions=F + ['core.Cache.create_tag_index', 'core.Cache.drop_tag_index', 'fanout.FanoutCache.reset'],
+                        weight=10, twin=False))
+    out.append(dict(id='init.race', func='ob_init_race', params={}, tags=['C18', 'C05'], functions=F + ['core.Cache._sql_retry'], weight=30, twin=False, must_reach=['interleaved']))
+    for k in ('cache', 'fanout', 'index', 'deque'):
+        out.append(dict(id='init.kill.%s' % k, func='ob_init_kill', params=dict(kind=k), tags=['C07', 'C18'], functions=F + ['core.Cache._sql_retry'], weight=30, twin=False,
+                        must_reach=['crashed']))
     return out
